@@ -46,6 +46,8 @@ class SnapMap:
 
 
 class ReaderWorld(GraphWorld):
+    wants_yields = True
+
     """Generic instant tau / generic stored key (X, Y, op)."""
 
     def __init__(self, cfg, ot, choices, methods):
